@@ -249,8 +249,11 @@ extern ssize_t __real_read(int, void *, size_t);
 extern int __real_close(int);
 extern ssize_t __real_writev(int, const struct iovec *, int);
 
+static int in_harness = 0; /* allocations made by the harness itself (snapshots) are neither counted nor failed */
+
 static bool alloc_should_fail(void)
 {
+	if (in_harness) return false;
 	n_allocs++;
 	if (alloc_fail_in > 0) {
 		if (--alloc_fail_in == 0) {
@@ -612,7 +615,16 @@ int __wrap_init_peer(struct peer *p, bool is_local_connection, struct eventloop 
 
 /* ------------------------------------------------------------------ snapshots */
 
+static void snapshot_inner(const char *tag);
+
 static void snapshot(const char *tag)
+{
+	in_harness++;
+	snapshot_inner(tag);
+	in_harness--;
+}
+
+static void snapshot_inner(const char *tag)
 {
 	char line[256];
 	size_t heap = cjet_get_alloc_size();
